@@ -22,6 +22,7 @@ def parseLit (j : Json) : Except String Lit :=
   | .null => pure .none
   | .str "pending" => pure .pending
   | .arr _ => do return .list (← ints j)
+  | .obj _ => do return .tup (← (← getArr j "tup").toList.mapM ints)     -- a tuple of lists: {"tup": [[..], [..]]}
   | _ => do return .int (← j.getInt?)
 
 def parseKind : String → Except String Kind
@@ -84,6 +85,7 @@ def parseOp (j : Json) : Except String Op := do
     return .mkInst (← getNat j "k") kw
   | "setVal" => return .setVal (← parseTarget (← j.getObjVal? "t")) (← getNat j "x") (← parseLit (← j.getObjVal? "v"))
   | "mutVal" => return .mutVal (← parseTarget (← j.getObjVal? "t")) (← getNat j "x") (← getInt j "v")
+  | "mutItem" => return .mutItem (← parseTarget (← j.getObjVal? "t")) (← getNat j "x") (← getNat j "i") (← getInt j "v")
   | "access" => return .access (← getNat j "i") (← getNat j "x")
   | "slotSet" => return .slotSet (← parseTarget (← j.getObjVal? "t")) (← getNat j "x") (← parseSlotSet (← j.getObjVal? "s"))
   | "sharedFail" => return .sharedFail
@@ -101,6 +103,7 @@ def jVal : OVal → Json
   | .none => Json.null
   | .int n => toJson n
   | .cell c l => Json.mkObj [("c", toJson c), ("v", jInts l)]
+  | .tup items => Json.mkObj [("t", Json.arr (items.map fun (c, l) => Json.mkObj [("c", toJson c), ("v", jInts l)]).toArray)]
 
 def kindName : Kind → String
   | .plain => "plain" | .number => "number" | .selector => "selector"
@@ -131,7 +134,11 @@ def jSnap (s : Snap) : Json := Json.mkObj [
 def pVal (j : Json) : Except String OVal :=
   match j with
   | .null => pure .none
-  | .obj _ => do return .cell (← getNat j "c") (← ints (← j.getObjVal? "v"))
+  | .obj _ =>
+    match getOpt j "t" with
+    | some t => do
+      return .tup (← (← t.getArr?).toList.mapM fun e => do pure (← getNat e "c", ← ints (← e.getObjVal? "v")))
+    | none => do return .cell (← getNat j "c") (← ints (← j.getObjVal? "v"))
   | _ => do return .int (← j.getInt?)
 
 def pSlot : String → Except String Slot
@@ -188,6 +195,7 @@ def opTag (w : World) : Op → String
     | some I => if (aget I.params x).isSome then "setVal:inst:has-copy" else "setVal:inst:first-touch"
     | none => "setVal:inst:?"
   | .mutVal t _ _ => s!"mutVal:{targetTag t}"
+  | .mutItem t _ _ _ => s!"mutItem:{targetTag t}"
   | .access i x =>
     match w.inst? i with
     | some I =>
@@ -217,6 +225,7 @@ def mapTarget (amap : List (Option Nat)) : Target → Option Target
 def translate (amap : List (Option Nat)) : Op → Option Op
   | .setVal t x v => (mapTarget amap t).map (.setVal · x v)
   | .mutVal t x n => (mapTarget amap t).map (.mutVal · x n)
+  | .mutItem t x i n => (mapTarget amap t).map (.mutItem · x i n)
   | .access a x => match mapTarget amap (.inst a) with
     | some (.inst i) => some (.access i x)
     | _ => none
